@@ -55,6 +55,7 @@ fn generate(_corpus: &Corpus, tier: Tier, run: u64, rng: &mut Rng) -> Option<Cas
         resets: false,
         continue_max: rng.chance(1, 4),
         jump_functions: false,
+        eval_any_knot: false,
     };
     let mut ops = gen_script(rng, &prog, &cfg);
     ops.extend(gen_tail(rng, 2));
@@ -90,8 +91,11 @@ pub fn gen_functions(prog: &Program) -> Vec<(String, usize)> {
     if let Some(src) = &prog.source {
         for l in src.lines() {
             if let Some(rest) = l.trim().strip_prefix("=== function fn") {
-                let name: String = format!("fn{}", rest.chars().take_while(|c| c.is_ascii_digit()).collect::<String>());
+                let name: String = format!("fn{}", rest.chars().take_while(|c| *c != '(').collect::<String>());
                 let inside = rest.split('(').nth(1).unwrap_or("").split(')').next().unwrap_or("");
+                if inside.contains("ref ") {
+                    continue; // assigns through its parameter: not a pure function
+                }
                 let argc = if inside.trim().is_empty() { 0 } else { inside.split(',').count() };
                 v.push((name, argc));
             }
